@@ -291,3 +291,31 @@ C["kneeliverse.postprocessing.add_points_even"] = dict(
     },
     ghost_vars={"NC": "Int"}, ghost_init=["NC = 0"],
 )
+
+
+# ------------------------------------------------------------------ C12: the ranking score itself = fit quality x relative height
+# (definitional contract of smooth_ranking; call sites use the summary above).  The fit quality of a segment is lf.r2 of its slice
+# (uninterpreted here: FIT is the ghost array of the values the body appends); the relative height is |peak - y| over the sum of those
+# distances in the cluster, peak = the highest member.
+C["kneeliverse.linear_fit.r2"] = dict(
+    mode="U", summary=True, params={"x": "Seq[Real]", "y": "Seq[Real]"}, returns="Real",
+    requires=[], returns_expr="uf('R2fit', 'Real', x, y)", ensures=[])
+_YK = "points[knees[%s]][1]"
+_W = "absr(peak_ - %s)" % (_YK % "k")
+C["kneeliverse.knee_ranking.smooth_ranking#def"] = dict(
+    function="kneeliverse.knee_ranking.smooth_ranking", mode="R", owner="C12",
+    params={"points": PTS, "knees": "Seq[Int]", "t": RANKING}, returns="Seq[Real]",
+    locals={"fit": "Seq[Real]", "weights": "Seq[Real]"},
+    ghost_vars={"FIT": "Seq[Real]"},
+    requires=["len(knees) >= 1", "forall(0, len(knees), lambda k: 0 <= knees[k] and knees[k] < len(points))",
+              "forall2(0, len(knees), lambda a, b: knees[a] < knees[b])"],
+    ensures=["len(result) == len(knees)",
+             # peak_ = the highest member of the cluster
+             "forall(0, len(knees), lambda k: %s <= peak)" % (_YK % "k"),
+             "exists(0, len(knees), lambda k: %s == peak)" % (_YK % "k"),
+             "forall(0, len(knees), lambda k: result[k] == FIT[k] * ite(Sum(0, len(knees), lambda j: absr(peak - %s)) != 0, absr(peak - %s) / Sum(0, len(knees), lambda j: absr(peak - %s)), absr(peak - %s)))"
+             % (_YK % "j", _YK % "k", _YK % "j", _YK % "k")],
+    loops={0: dict(inv=["len(fit) == _it0 and len(weights) == _it0",
+                        "forall(0, _it0, lambda k: fit[k] == FIT[k] and weights[k] == absr(peak - %s))" % (_YK % "k")],
+                   ghost_end=["FIT = store(FIT, _it0 - 1, r2)"])},
+)
